@@ -384,6 +384,8 @@ class Engine(Interp):
                 lv = self.lift_container(v)
                 if lv is not v:
                     obj.fields[attr] = lv
+                if isinstance(lv, SList):
+                    lv._heap = True           # reachable through the heap: a loop body may mutate it while it is iterated
                 return lv
             if attr == "__class__":
                 return obj.cls
@@ -483,6 +485,11 @@ class Engine(Interp):
         if isinstance(obj, SList):
             if all(self.pybool(c) is True for c, _ in obj.items):
                 return SList(obj.items[lo:hi])
+            if hi is None and isinstance(lo, int) and 0 <= lo <= 3:
+                out = SList(list(obj.items))           # drop the first `lo` present elements
+                for _ in range(lo):
+                    self._drop_first(out, TRUE)
+                return out
             raise Unsupported("slice of guarded list")
         return obj[lo:hi]
 
